@@ -5,46 +5,69 @@
    Fix_ExplicitCheck = FALSE: an explicit id is not checked before the process is started (pinned tree).
    Ids: automatic ids are 0, 1, 2, ... ; a call may ask for an explicit id from the same range.
 *)
-EXTENDS Integers, FiniteSets, TLC
+EXTENDS Integers, Sequences, FiniteSets, TLC
 CONSTANTS Calls,               \* [call name -> -1 (automatic id) or an explicit id]
           Failing,             \* calls whose process cannot be started (create_io / bootstrap raises)
           Fix_RegisterAtomic, Fix_ExplicitCheck,
-          GiveBackOnFailure    \* TRUE: a mutant that decrements the automatic counter when the creation fails
-VARIABLES counter, lock, live, pc, myid, procs, leaked
-vars == <<counter, lock, live, pc, myid, procs, leaked>>
+          GiveBackOnFailure,   \* TRUE: a mutant that decrements the automatic counter when the creation fails
+          Fix_SnapshotLookup   \* FALSE (pinned tree): "id in group" walks the live list element by element while another gateway's
+                               \* exit removes itself from it - the walk then skips the neighbour
+VARIABLES counter, lock, live, pc, myid, procs, leaked, order, idx, atStart
+vars == <<counter, lock, live, pc, myid, procs, leaked, order, idx, atStart>>
 C == DOMAIN Calls
 LiveIds == {g[2] : g \in live}
 Init == /\ counter = 0 /\ lock = "none" /\ live = {} /\ pc = [c \in C |-> "start"] /\ myid = [c \in C |-> -1] /\ procs = {} /\ leaked = {}
+        /\ order = <<>> /\ idx = [c \in C |-> 0] /\ atStart = [c \in C |-> {}]
+
+\* the explicit-id check of allocate_id when the lookup is not atomic: start walking the list ...
+ScanStart(c) ==
+  /\ ~Fix_SnapshotLookup /\ pc[c] = "start" /\ Calls[c] # -1 /\ Fix_ExplicitCheck
+  /\ pc' = [pc EXCEPT ![c] = "scan"] /\ idx' = [idx EXCEPT ![c] = 1] /\ atStart' = [atStart EXCEPT ![c] = live]
+  /\ UNCHANGED <<counter, lock, live, myid, procs, leaked, order>>
+\* ... one element per step; an exit in between shifts the list under the walk
+Scan(c) ==
+  /\ pc[c] = "scan"
+  /\ IF idx[c] > Len(order) THEN myid' = [myid EXCEPT ![c] = Calls[c]] /\ pc' = [pc EXCEPT ![c] = "spawn"] /\ UNCHANGED idx
+     ELSE IF order[idx[c]][2] = Calls[c] THEN pc' = [pc EXCEPT ![c] = "failed"] /\ UNCHANGED <<myid, idx>>
+     ELSE idx' = [idx EXCEPT ![c] = @ + 1] /\ UNCHANGED <<myid, pc>>
+  /\ UNCHANGED <<counter, lock, live, procs, leaked, order, atStart>>
 
 Allocate(c) ==        \* allocate_id, one critical section
-  /\ pc[c] = "start" /\ lock = "none"
+  /\ pc[c] = "start" /\ lock = "none" /\ (Fix_SnapshotLookup \/ Calls[c] = -1 \/ ~Fix_ExplicitCheck)
+  /\ atStart' = [atStart EXCEPT ![c] = live]
   /\ IF Calls[c] = -1 THEN
         IF counter \in LiveIds THEN pc' = [pc EXCEPT ![c] = "failed"] /\ counter' = counter + 1 /\ UNCHANGED myid
         ELSE myid' = [myid EXCEPT ![c] = counter] /\ counter' = counter + 1 /\ pc' = [pc EXCEPT ![c] = "spawn"]
      ELSE IF Fix_ExplicitCheck /\ Calls[c] \in LiveIds THEN pc' = [pc EXCEPT ![c] = "failed"] /\ UNCHANGED <<myid, counter>>
      ELSE myid' = [myid EXCEPT ![c] = Calls[c]] /\ pc' = [pc EXCEPT ![c] = "spawn"] /\ UNCHANGED counter
-  /\ UNCHANGED <<lock, live, procs, leaked>>
+  /\ UNCHANGED <<lock, live, procs, leaked, order, idx>>
 Spawn(c) == /\ pc[c] = "spawn" /\ c \notin Failing /\ procs' = procs \cup {c} /\ pc' = [pc EXCEPT ![c] = "check"]
-            /\ UNCHANGED <<counter, lock, live, myid, leaked>>
+            /\ UNCHANGED <<counter, lock, live, myid, leaked, order, idx, atStart>>
 SpawnFails(c) ==      \* the process could not be started: the call fails, its id stays consumed
   /\ pc[c] = "spawn" /\ c \in Failing /\ pc' = [pc EXCEPT ![c] = "failed"]
   /\ counter' = IF GiveBackOnFailure /\ Calls[c] = -1 THEN counter - 1 ELSE counter
-  /\ UNCHANGED <<lock, live, myid, procs, leaked>>
+  /\ UNCHANGED <<lock, live, myid, procs, leaked, order, idx, atStart>>
 Check(c) ==           \* assert gateway.id not in self
   /\ pc[c] = "check" /\ (Fix_RegisterAtomic => lock = "none")
   /\ IF myid[c] \in LiveIds THEN pc' = [pc EXCEPT ![c] = "failed"] /\ leaked' = leaked \cup {c} /\ UNCHANGED <<live, lock>>
      ELSE IF Fix_RegisterAtomic THEN live' = live \cup {<<c, myid[c]>>} /\ pc' = [pc EXCEPT ![c] = "live"] /\ UNCHANGED <<lock, leaked>>
      ELSE pc' = [pc EXCEPT ![c] = "append"] /\ UNCHANGED <<live, lock, leaked>>
-  /\ UNCHANGED <<counter, myid, procs>>
-Append(c) == /\ pc[c] = "append" /\ live' = live \cup {<<c, myid[c]>>} /\ pc' = [pc EXCEPT ![c] = "live"]
-             /\ UNCHANGED <<counter, lock, myid, procs, leaked>>
+  /\ order' = IF myid[c] \notin LiveIds /\ Fix_RegisterAtomic THEN Append(order, <<c, myid[c]>>) ELSE order
+  /\ UNCHANGED <<counter, myid, procs, idx, atStart>>
+AppendGw(c) == /\ pc[c] = "append" /\ live' = live \cup {<<c, myid[c]>>} /\ pc' = [pc EXCEPT ![c] = "live"]
+             /\ order' = Append(order, <<c, myid[c]>>)
+             /\ UNCHANGED <<counter, lock, myid, procs, leaked, idx, atStart>>
 Exit(c) == /\ pc[c] = "live" /\ live' = live \ {<<c, myid[c]>>} /\ procs' = procs \ {c} /\ pc' = [pc EXCEPT ![c] = "gone"]
-           /\ UNCHANGED <<counter, lock, myid, leaked>>
-Next == \E c \in C : Allocate(c) \/ Spawn(c) \/ SpawnFails(c) \/ Check(c) \/ Append(c) \/ Exit(c)
+           /\ order' = SelectSeq(order, LAMBDA g : g # <<c, myid[c]>>)
+           /\ UNCHANGED <<counter, lock, myid, leaked, idx, atStart>>
+Next == \E c \in C : ScanStart(c) \/ Scan(c) \/ Allocate(c) \/ Spawn(c) \/ SpawnFails(c) \/ Check(c) \/ AppendGw(c) \/ Exit(c)
 Spec == Init /\ [][Next]_vars
 
 NoSharedId == \A a, b \in live : a # b => a[2] # b[2]
 AutoIdsUnique == \A a, b \in C : (a # b /\ Calls[a] = -1 /\ Calls[b] = -1 /\ myid[a] # -1 /\ myid[b] # -1) => myid[a] # myid[b]
 \* a call that fails sequentially (nobody else is between allocation and registration) leaves no process behind
 NoLeakWhenSequential == \A c \in leaked : \E d \in C \ {c} : pc[d] \in {"spawn", "check", "append", "live", "gone"}
+\* an explicit id that a gateway holds from before the call until now is refused before any process is started for it
+RefusedUpFront == \A c \in C : (pc[c] \in {"spawn", "check", "append"} /\ Calls[c] # -1 /\ Fix_ExplicitCheck)
+                                  => ~\E g \in atStart[c] \cap live : g[2] = Calls[c]
 =============================================================================
